@@ -189,6 +189,7 @@ TARGETS: Dict[str, Any] = {
     "own_pkg_cls": ("taskiq", "ZeroMQBroker", "cls"), "own_pkg_func": ("taskiq", "gather", "func"),
     "nomodule_issubclass": (None, "issubclass", "nomodule"), "nomodule_isinstance": (None, "isinstance", "nomodule"),
     "state_walk": (FIX, "app.state.db_pool", "missing"),        # an unset key of a TaskiqState subclass with a __missing__ factory
+    "raw_str": ("os", "system", "func"), "raw_list": ("os", "system", "func"), "raw_num": ("os", "system", "func"),
     "wrapped_func": (FIX, "shim", "func"), "exc_method": (FIX, "Exc.notify", "func"), "exc_inner_cls": (FIX, "Exc.Meta", "cls"),
     "partial_inst": (FIX, "part", "inst"),
     # objects that live in taskiq's own serialization module are no more trustworthy than any other non-exception
@@ -206,9 +207,14 @@ TARGETS: Dict[str, Any] = {
 ARGS = {"none": [], "one": ["x"], "two": [1, 2], "big": ["x" * 6000, list(range(300))]}
 
 
+RAW_CLAIMS: Dict[str, Any] = {"raw_str": "os.system", "raw_list": ["os", "system", ["echo pwned"]], "raw_num": 1}
+
+
 def build_payload(p: Optional[Dict[str, Any]]) -> Any:
     if p is None or p.get("t") == "nil":
         return None
+    if p["t"] in RAW_CLAIMS:
+        return RAW_CLAIMS[p["t"]]          # a stored "error" that is not even a mapping: never comes back as a value
     mod, name, _ = TARGETS[p["t"]]
     return {"exc_type": name, "exc_message": ARGS[p.get("a", "one")], "exc_module": mod,
             "exc_cause": build_payload(p.get("cause")), "exc_context": build_payload(p.get("context")),
